@@ -21,6 +21,7 @@ pub struct C19;
 #[derive(Default)]
 pub struct Nonces {
     largest_group: usize,
+    most_whoareyous: usize,
     group_with_rekey_or_retx: bool,
     retransmissions: u64,
     undecryptable: u64,
@@ -67,6 +68,7 @@ impl Oracle for Nonces {
                 }
             }
             self.keys += groups.len();
+            self.most_whoareyous = self.most_whoareyous.max(id_nonces.len());
             for (k, ds) in &groups {
                 let mut by_nonce: HashMap<[u8; 12], &Datagram> = HashMap::new();
                 let mut retx = false;
@@ -101,7 +103,13 @@ impl Oracle for Nonces {
     }
 
     fn report(&self, _w: &World, rep: &mut CaseReport) {
-        rep.nontrivial = self.group_with_rekey_or_retx;
+        rep.nontrivial = self.group_with_rekey_or_retx || self.most_whoareyous > 64 || self.largest_group > 256;
+        if self.most_whoareyous > 64 {
+            rep.class("node-emitted>64-whoareyous");
+        }
+        if self.largest_group > 256 {
+            rep.class("group>256-datagrams");
+        }
         rep.count("retransmissions", self.retransmissions);
         rep.count("undecryptable(random packets)", self.undecryptable);
         rep.count("session-keys", self.keys as u64);
@@ -133,14 +141,34 @@ impl Property for C19 {
                         v.push(Op::DeliverAll);
                         v
                     });
+                // a long burst inside one session (message counters far beyond one byte)
+                let long_burst = (0u8..nn, 0u8..nn, 260u16..330).prop_map(|(from, to, k)| {
+                    let mut v: Vec<Op> = Vec::new();
+                    for j in 0..k {
+                        v.push(Op::Submit { from, to, body: Body::Ping, with_record: true });
+                        if j % 16 == 15 {
+                            v.push(Op::DeliverAll);
+                        }
+                    }
+                    v.push(Op::DeliverAll);
+                    v
+                });
+                // many WHOAREYOUs from one node: undecryptable packets claiming distinct source ids
+                let probe_burst = (66u16..260, 0u8..3).prop_map(|(k, z)| (0..k).map(|j| Op::Probe { x: XSel::Random((j % 256) as u8), z: z + (j / 256) as u8 }).collect::<Vec<_>>());
                 let frag = prop_oneof![
-                    3 => burst,
-                    4 => wire_gen::op_strategy(np, wire_gen::Mix::Faulty).prop_map(|o| vec![o]),
+                    30 => burst,
+                    40 => wire_gen::op_strategy(np, wire_gen::Mix::Faulty).prop_map(|o| vec![o]),
+                    1 => long_burst,
+                    1 => probe_burst,
                 ];
                 (Just(cfg), proptest::collection::vec(frag, 1..n).prop_map(|v| v.into_iter().flatten().collect::<Vec<_>>()))
             })
             .prop_map(|(mut cfg, ops)| {
                 cfg.resp_mode.iter_mut().for_each(|m| *m = AppMode::Immediate);
+                if ops.iter().filter(|o| matches!(o, Op::Probe { .. })).count() > 60 {
+                    // V's application answers who-are-you queries at once, so that every probe is challenged
+                    cfg.wru_mode[0] = AppMode::Immediate;
+                }
                 Case { cfg, ops }
             })
             .boxed()
@@ -152,7 +180,7 @@ impl Property for C19 {
         rep
     }
     fn rule() -> String {
-        "long schedules among 2..4 real handlers: bursts of 2..24 requests (multi-packet NODES answers included) inside one session interleaved with loss, duplication, delay across timeouts (retransmissions), challenges from both sides, restarts (re-keying, re-encryption of in-flight requests) and record-less contacts; at the end all datagrams every node emitted are grouped by the session key that authenticates them (keys from probe snapshots, trial decryption): inside a group two datagrams with the same 12-byte nonce must be byte-identical; the id-nonces of a node's WHOAREYOUs are pairwise different. Non-trivial = a key group of >= 20 datagrams that contains a retransmission or belongs to a peer relation that was re-keyed.".into()
+        "long schedules among 2..4 real handlers: bursts of 2..24 requests (multi-packet NODES answers included) inside one session interleaved with loss, duplication, delay across timeouts (retransmissions), challenges from both sides, restarts (re-keying, re-encryption of in-flight requests) and record-less contacts; at the end all datagrams every node emitted are grouped by the session key that authenticates them (keys from probe snapshots, trial decryption): inside a group two datagrams with the same 12-byte nonce must be byte-identical; the id-nonces of a node's WHOAREYOUs are pairwise different. In about one case in 3 the schedule also contains a burst of 260..330 requests inside one session or 66..260 undecryptable packets claiming distinct source ids (one WHOAREYOU each). Non-trivial = a key group of >= 20 datagrams that contains a retransmission or belongs to a peer relation that was re-keyed, a key group of more than 256 datagrams, or a node that emitted more than 64 WHOAREYOUs.".into()
     }
     fn assumptions() -> Vec<String> {
         vec![
